@@ -381,6 +381,39 @@ def r4_progress(ctx):
     ctx.check(ok, "C18.R4", g, loops[0] if loops else g.node, "the visit loop advances by the validated spacing", "the visit loop no longer advances by N(distance_visit_mean, distance_visit_std)", construct="visit loop increment")
 
 
+def r11_sources_standardised_per_source(ctx):
+    """'finite values for every requested feature ... every valid design runs to completion': each source is standardised over the simulated
+    individuals (its own column).  Statistics taken over the sources of one individual are NaN for a one-source model (std of one value) and
+    make every simulation of such a model fail; with more sources they silently replace the standardisation by another one."""
+    import re as _re
+    from ..astq import Canon, unify
+    ctx.rule("C18.R11", "simulated sources are standardised source by source, over the individuals", 1)
+    f = ctx.ix.func(SIM, f"{CLS}._sample_individual_parameters_from_model_parameters", "C18.R11")
+    L = Canon(f.node).lines(False, True)
+    S_ = "?df[f'sources_{?i}']"
+    b = unify(L, ["for (range($1.source_dimension), ?i)", f"{S_} = torch.tensor(np.random.normal(0.0, 1.0, $0.param_study['patient_number']), dtype=torch.float32)",
+                  f"{S_} = ({S_} - {S_}.mean()) / {S_}.std()"])
+    if b is not None and b["#0"] < b["#1"] < b["#2"]:
+        ctx.ok("C18.R11", f, f.node, "each source column: N(0, 1) draws, centred and scaled with its own mean / std over the individuals", construct="standardisation of the sources")
+        return
+    # sources laid out as ROWS of a table (index = source names) and reduced with the default axis: statistics over the sources of each individual
+    rows = [ln for ln in L if _re.search(r"pd\.DataFrame\(.*index=\[f'sources_\{", ln)]
+    wrong = None
+    for ln in rows:
+        m = _re.match(r"(%\d+) = ", ln)
+        if not m:
+            continue
+        nm = m.group(1)
+        for l2 in L:
+            if _re.search(_re.escape(nm) + r"\.(mean|std)\(\)", l2) and ".T." not in l2:
+                wrong = l2
+    if wrong is not None:
+        ctx.violation("C18.R11", f, f.node, f"`{wrong[:100]}`: the sources are the rows of that table, so `.mean()` / `.std()` (default axis) are taken over the sources of each individual, not over the "
+                      "individuals: NaN for a one-source model (every simulation of such a model fails), another standardisation otherwise", construct="standardisation of the sources")
+    else:
+        ctx.anchor(False, "C18.R11", f, f.node, "", "per-source standardisation of the simulated sources", construct="standardisation of the sources")
+
+
 STRICTLY_POSITIVE = {"patient_number", "distance_visit_mean"}  # keys the validation refuses when <= 0 (C18.R1 / C18.R4 check those refusals); the others may be 0
 
 
@@ -601,6 +634,7 @@ def rules(ctx):
     r7_options_reach_param_study(ctx)
     r8_table_ages_keyed_by_their_own_id(ctx)
     r10_no_division_by_a_design_parameter(ctx)
+    r11_sources_standardised_per_source(ctx)
     # whether a design is accepted depends on the design alone: the tables of requirements / defaults of the class are never written
     # (same rule as C13.R5, restricted to the simulation package)
     from .c13 import r5_shared_defaults
